@@ -229,6 +229,10 @@ pub enum FsInfo {
     StaleSmall,
     StaleLarge,
     NextOutOfRange,
+    /// correct count, hint unknown
+    CountOnly,
+    /// count unknown, correct hint
+    HintOnly,
     Raw(u32, u32),
 }
 
@@ -537,6 +541,8 @@ impl Mk {
                 FsInfo::StaleSmall => (0, first_free),
                 FsInfo::StaleLarge => (free + 1000, first_free),
                 FsInfo::NextOutOfRange => (free, g.clusters + 2 + 500),
+                FsInfo::CountOnly => (free, 0xFFFF_FFFF),
+                FsInfo::HintOnly => (0xFFFF_FFFF, first_free),
                 FsInfo::Raw(a, b) => (a, b),
             };
             let mut fi = ZERO;
